@@ -44,7 +44,7 @@ structure CurOK (p : Period) (h : Nat) : Prop where
   s62 : p.stop < 2 ^ 62
   m1 : 1 ≤ p.mod
   m62 : p.mod < 2 ^ 62
-  a200 : p.alloc < 2 ^ 200
+  a200 : p.alloc < 2 ^ 128
 
 theorem curOK_of_current {periods : List Period} {h : Nat} {p : Period} (henv : inEnvelope periods = true)
     (hc : currentPeriod periods h = some p) : CurOK p h := by
@@ -136,5 +136,305 @@ theorem endBlock_idle_none (fix : Bool) {periods : List Period} {h accu : Nat} (
 theorem endBlock_idle_zero (fix : Bool) {periods : List Period} {h accu : Nat} (e : Env) {p : Period}
     (hc : currentPeriod periods h = some p) (ha : p.alloc = 0) : endBlock fix periods h accu e = .ok (accu, 0) := by
   unfold endBlock; rw [hc]; simp [ha]
+
+/-- whenever the EndBlocker does not panic inside a period, its result has the computed form -/
+theorem endBlock_ok_form (fix : Bool) {periods : List Period} {h accu : Nat} (e : Env) {p : Period}
+    (hc : currentPeriod periods h = some p) (hok : CurOK p h) (ha : p.alloc ≠ 0) {r : Nat × Nat}
+    (hr : endBlock fix periods h accu e = .ok r) :
+    r = finish (decide ((h - p.start) % p.mod = 0)) (accuIn fix p h accu + share p) e := by
+  unfold endBlock at hr
+  rw [hc] at hr
+  simp only at hr
+  rw [if_neg ha] at hr
+  unfold endBlockActive at hr
+  rw [dist_compute hok, calc_compute hok] at hr
+  simp only at hr
+  unfold Uint.add Uint.chk at hr
+  by_cases hlt : accuIn fix p h accu + share p < two256
+  · rw [if_pos hlt] at hr; cases hr; rfl
+  · rw [if_neg hlt] at hr; cases hr
+
+/-! ### arithmetic of `mod` -/
+
+theorem mod_pred {x m : Nat} (hm : 0 < m) (hx : 1 ≤ x) (hr : x % m ≠ 0) : (x - 1) % m + 1 = x % m := by
+  have hd := Nat.div_add_mod x m
+  have hlt := Nat.mod_lt x hm
+  have e : x - 1 = m * (x / m) + (x % m - 1) := by omega
+  rw [e, Nat.mul_add_mod, Nat.mod_eq_of_lt (by omega)]
+  omega
+
+/-! ### the current period under disjointness -/
+
+theorem inRange_iff (p : Period) (h : Nat) : inRange p h = true ↔ p.start ≤ h ∧ h ≤ p.stop := by
+  simp [inRange]
+
+theorem find_unique {periods : List Period} (hd : periodsDisjoint periods) {q : Period} (hq : q ∈ periods)
+    {h : Nat} (hr : inRange q h = true) : periods.find? (fun p => inRange p h) = some q := by
+  induction periods with
+  | nil => cases hq
+  | cons a rest ih =>
+    obtain ⟨h1, h2⟩ := List.pairwise_cons.mp hd
+    simp only [List.find?]
+    cases ha : inRange a h with
+    | true =>
+      simp only
+      simp at hq
+      rcases hq with rfl | hq
+      · rfl
+      · exfalso
+        have := h1 q hq
+        rw [inRange_iff] at ha hr
+        unfold disjoint at this
+        omega
+    | false =>
+      simp only
+      simp at hq
+      rcases hq with rfl | hq
+      · rw [hr] at ha; cases ha
+      · exact ih h2 hq
+
+theorem current_of_mem {periods : List Period} (hd : periodsDisjoint periods) {q : Period} (hq : q ∈ periods)
+    {h : Nat} (hr : inRange q h = true) : currentPeriod periods h = some (normMod q) := by
+  unfold currentPeriod; rw [find_unique hd hq hr]; rfl
+
+/-- inside a period past its first block, the previous block had the same current period -/
+theorem current_pred {periods : List Period} (hd : periodsDisjoint periods) {h : Nat} {q : Period}
+    (hc : currentPeriod periods (h + 1) = some q) (hne : h + 1 ≠ q.start) : currentPeriod periods h = some q := by
+  obtain ⟨q0, hq0, hr, rfl⟩ := currentPeriod_some hc
+  obtain ⟨e1, _⟩ := normMod_fields q0
+  rw [e1] at hne
+  apply current_of_mem hd hq0
+  rw [inRange_iff] at hr ⊢
+  omega
+
+/-! ### one block -/
+
+/-- per-block clause and preservation of the accumulator invariant (repaired tree, `fix = true`) -/
+theorem endBlock_block {periods : List Period} (henv : inEnvelope periods = true) (hd : periodsDisjoint periods)
+    {h accu accu' m : Nat} (e : Env) (hinv : accuInv periods h accu)
+    (hr : endBlock true periods h accu e = .ok (accu', m)) :
+    rewardsBlockOK (currentPeriod periods h) h m = true ∧ accuInv periods (h + 1) accu' := by
+  cases hc : currentPeriod periods h with
+  | none =>
+    rw [endBlock_idle_none true e hc] at hr
+    cases hr
+    refine ⟨by simp [rewardsBlockOK], ?_⟩
+    intro q hq _ hne
+    rw [current_pred hd hq hne] at hc; cases hc
+  | some p =>
+    by_cases ha : p.alloc = 0
+    · rw [endBlock_idle_zero true e hc ha] at hr
+      cases hr
+      refine ⟨by simp [rewardsBlockOK, ha], ?_⟩
+      intro q hq hqa hne
+      rw [current_pred hd hq hne] at hc; cases hc
+      exact absurd ha hqa
+    · have hok := curOK_of_current henv hc
+      have hf := endBlock_ok_form true e hc hok ha hr
+      have hm1 := hok.m1
+      have hlo := hok.lo
+      simp only [rewardsBlockOK, ha, if_false, decide_eq_true_eq]
+      by_cases hstart : h = p.start
+      · -- first block of the period: the carried accumulator is dropped
+        have hai : accuIn true p h accu = 0 := by simp [accuIn, hstart]
+        have hz : (h - p.start) % p.mod = 0 := by rw [hstart]; simp
+        rw [hai, hz] at hf
+        simp only [decide_true, finish, Nat.zero_add] at hf
+        cases hf
+        refine ⟨?_, ?_⟩
+        · have key : blockBound p h = share p := by
+            unfold blockBound; rw [if_neg (by simp [hz]), if_pos hstart]
+          rw [key]
+          exact distribute_le _ _
+        · intro q hq hqa hne
+          exact Nat.zero_le _
+      · have hai : accuIn true p h accu = accu := by
+          simp only [accuIn, Bool.true_and, beq_iff_eq, hstart, if_false]
+        have hacc := hinv p hc ha hstart
+        have hgt : 1 ≤ h - p.start := by omega
+        rw [hai] at hf
+        by_cases hz : (h - p.start) % p.mod = 0
+        · rw [hz] at hf
+          simp only [decide_true, finish] at hf
+          cases hf
+          refine ⟨?_, fun q hq hqa hne => Nat.zero_le _⟩
+          unfold blockBound
+          simp only [hz, ne_eq, not_true_eq_false, if_false, hstart]
+          have h1 := distribute_le (accu + share p) e
+          have h2 : (h - p.start - 1) % p.mod + 1 ≤ p.mod := Nat.mod_lt _ (by omega)
+          have h3 : share p * ((h - p.start - 1) % p.mod) + share p ≤ share p * p.mod := by
+            have := Nat.mul_le_mul_left (share p) h2
+            rw [Nat.mul_add, Nat.mul_one] at this
+            exact this
+          omega
+        · simp only [hz, decide_false, finish] at hf
+          cases hf
+          refine ⟨by unfold blockBound; simp [hz], ?_⟩
+          intro q hq hqa hne
+          have hcq := current_pred hd hq hne
+          rw [hc] at hcq; cases hcq
+          have e1 : h + 1 - p.start - 1 = h - p.start := by omega
+          rw [e1]
+          have := mod_pred (by omega : 0 < p.mod) hgt hz
+          have h3 : share p * ((h - p.start - 1) % p.mod) + share p = share p * ((h - p.start) % p.mod) := by
+            rw [← this, Nat.mul_add, Nat.mul_one]
+          omega
+
+/-! ### histories -/
+
+theorem run_cons {fix : Bool} {periods : List Period} {h accu : Nat} {e : Env} {es : List Env} {a : Nat} {ms : List Nat}
+    (hr : run fix periods h accu (e :: es) = .ok (a, ms)) :
+    ∃ accu' m ms', endBlock fix periods h accu e = .ok (accu', m) ∧
+      run fix periods (h + 1) accu' es = .ok (a, ms') ∧ ms = m :: ms' := by
+  simp only [run] at hr
+  cases h1 : endBlock fix periods h accu e with
+  | error x => rw [h1] at hr; cases hr
+  | ok r =>
+    obtain ⟨accu', m⟩ := r
+    rw [h1] at hr
+    simp only at hr
+    cases h2 : run fix periods (h + 1) accu' es with
+    | error x => rw [h2] at hr; cases hr
+    | ok r2 =>
+      obtain ⟨a2, ms'⟩ := r2
+      rw [h2] at hr
+      simp only at hr
+      cases hr
+      exact ⟨accu', m, ms', rfl, h2, rfl⟩
+
+/-- what period `p` may still create from height `h` on, given the accumulator at the beginning of
+    block `h` (the accumulator only counts inside the period after its first block) -/
+def budget (p : Period) (h accu : Nat) : Nat :=
+  if h ≤ p.start then share p * (p.stop - p.start + 1)
+  else if h ≤ p.stop then share p * (p.stop + 1 - h) + accu
+  else 0
+
+theorem run_budget {periods : List Period} (henv : inEnvelope periods = true) (hd : periodsDisjoint periods)
+    {p : Period} (hp : p ∈ periods) (ha : p.alloc ≠ 0) :
+    ∀ (es : List Env) (h accu a : Nat) (ms : List Nat), run true periods h accu es = .ok (a, ms) →
+      sumIn p h ms ≤ budget p h accu := by
+  have hpok : periodOK p = true := List.all_eq_true.mp henv p hp
+  simp only [periodOK, Bool.and_eq_true, decide_eq_true_eq] at hpok
+  obtain ⟨e1, e2, e3, e4, e5⟩ := normMod_fields p
+  have hsh : share (normMod p) = share p := by unfold share; rw [e1, e2, e3]
+  intro es
+  induction es with
+  | nil =>
+    intro h accu a ms hr
+    simp only [run] at hr; cases hr
+    simp [sumIn]
+  | cons e es ih =>
+    intro h accu a ms hr
+    obtain ⟨accu', m, ms', h1, h2, rfl⟩ := run_cons hr
+    have hih := ih (h + 1) accu' a ms' h2
+    simp only [sumIn]
+    by_cases hin : inRange p h = true
+    · -- inside the period: its (normalised) self is the current period
+      have hc := current_of_mem hd hp hin
+      have hok := curOK_of_current henv hc
+      have ha' : (normMod p).alloc ≠ 0 := by rw [e3]; exact ha
+      have hf := endBlock_ok_form true e hc hok ha' h1
+      simp only [hin, if_true]
+      rw [inRange_iff] at hin
+      rw [hsh, e1] at hf
+      by_cases hstart : h = p.start
+      · have hai : accuIn true (normMod p) h accu = 0 := by simp [accuIn, hstart, e1]
+        have hz : (h - p.start) % (normMod p).mod = 0 := by rw [hstart]; simp
+        rw [hai, hz] at hf
+        simp only [decide_true, finish, Nat.zero_add] at hf
+        cases hf
+        have hm := distribute_le (share p) e
+        unfold budget at hih ⊢
+        rw [if_pos (by omega)]
+        rw [if_neg (by omega)] at hih
+        have hmul : share p * (p.stop - p.start + 1) = share p * (p.stop - p.start) + share p := Nat.mul_succ _ _
+        split at hih
+        · have e' : p.stop + 1 - (h + 1) = p.stop - p.start := by omega
+          rw [e'] at hih
+          omega
+        · omega
+      · have hai : accuIn true (normMod p) h accu = accu := by
+          simp only [accuIn, Bool.true_and, beq_iff_eq, e1, hstart, if_false]
+        rw [hai] at hf
+        unfold budget at hih ⊢
+        rw [if_neg (by omega), if_pos (by omega)]
+        rw [if_neg (by omega)] at hih
+        have hmul : share p * (p.stop + 1 - h) = share p * (p.stop - h) + share p := by
+          have : p.stop + 1 - h = (p.stop - h) + 1 := by omega
+          rw [this]; exact Nat.mul_succ _ _
+        by_cases hz : (h - p.start) % (normMod p).mod = 0
+        · rw [hz] at hf
+          simp only [decide_true, finish] at hf
+          cases hf
+          have hm := distribute_le (accu + share p) e
+          split at hih
+          · have e' : p.stop + 1 - (h + 1) = p.stop - h := by omega
+            rw [e'] at hih
+            omega
+          · omega
+        · simp only [hz, decide_false, finish] at hf
+          cases hf
+          split at hih
+          · have e' : p.stop + 1 - (h + 1) = p.stop - h := by omega
+            rw [e'] at hih
+            omega
+          · omega
+    · have hin' : inRange p h = false := by simpa using hin
+      simp only [hin', Bool.false_eq_true, if_false, Nat.zero_add]
+      rw [Bool.eq_false_iff, ne_eq, inRange_iff] at hin'
+      unfold budget at hih ⊢
+      by_cases hlt : h < p.start
+      · rw [if_pos (by omega)]
+        rw [if_pos (by omega)] at hih
+        exact hih
+      · have hgt : p.stop < h := by omega
+        rw [if_neg (by omega), if_neg (by omega)]
+        rw [if_neg (by omega), if_neg (by omega)] at hih
+        exact hih
+
+/-- cumulative bound (pinned and repaired tree alike) -/
+theorem run_cumulative (fix : Bool) {periods : List Period} (henv : inEnvelope periods = true) :
+    ∀ (es : List Env) (h accu a : Nat) (ms : List Nat), run fix periods h accu es = .ok (a, ms) →
+      ms.sum + a ≤ accu + entitled periods h es.length := by
+  intro es
+  induction es with
+  | nil =>
+    intro h accu a ms hr
+    simp only [run] at hr; cases hr
+    simp [entitled]
+  | cons e es ih =>
+    intro h accu a ms hr
+    obtain ⟨accu', m, ms', h1, h2, rfl⟩ := run_cons hr
+    have hih := ih (h + 1) accu' a ms' h2
+    simp only [List.sum_cons, List.length_cons, entitled]
+    have key : m + accu' ≤ accu + entitledAt periods h := by
+      unfold entitledAt
+      cases hc : currentPeriod periods h with
+      | none => rw [endBlock_idle_none fix e hc] at h1; cases h1; simp
+      | some p =>
+        simp only
+        by_cases ha : p.alloc = 0
+        · rw [endBlock_idle_zero fix e hc ha] at h1; cases h1; simp [ha]
+        · have hok := curOK_of_current henv hc
+          have hf := endBlock_ok_form fix e hc hok ha h1
+          rw [if_neg ha]
+          have hai : accuIn fix p h accu ≤ accu := by unfold accuIn; split <;> omega
+          unfold finish at hf
+          split at hf
+          · cases hf
+            have := distribute_le (accuIn fix p h accu + share p) e
+            omega
+          · cases hf; omega
+    omega
+
+theorem run_length {fix : Bool} {periods : List Period} :
+    ∀ (es : List Env) (h accu a : Nat) (ms : List Nat), run fix periods h accu es = .ok (a, ms) → ms.length = es.length := by
+  intro es
+  induction es with
+  | nil => intro h accu a ms hr; simp only [run] at hr; cases hr; rfl
+  | cons e es ih =>
+    intro h accu a ms hr
+    obtain ⟨accu', m, ms', _, h2, rfl⟩ := run_cons hr
+    simp [ih _ _ _ _ h2]
 
 end Sif.Rewards
